@@ -77,6 +77,13 @@ CHECKS = {
         technique="enumerated writer placements compiled by the real compiler; deterministic simulation of accepted designs with static + dynamic driver monitors",
         ref="6/C07",
     ),
+    "C06": dict(
+        level="exploration",
+        text="VSIM's front end acts as a strict reference elaborator (declared-once per region case-insensitively incl. enumeration literals, reserved words, well-formed identifiers, predefined names the text relies on not hidden, every name resolves, full type and width checking of expressions / assignments / port associations / case choices, out ports not read, distinct choices + others, non-empty sensitivity lists containing every signal read outside a clock guard) plus the dynamic sensitivity monitor. Workloads: (names) one template with 17 naming positions, 1-5 of them drawn from an adversarial pool (reserved words in any case, predefined names, names CoHDL generates itself, case variants, underscore-decorated / non-identifier strings, names equal to another name or to another name plus a numeric suffix, additional_reserved_names); (cluster) 3-9 objects whose names collide case-insensitively or by suffix, driving the uniquifier's search; (piggyback) samples of the designs of every other workload, unclocked contexts simulated with single-input changes; (fixed) probe designs for shapes earlier rounds found.",
+        note="Trusted: the elaborator's reading of the LRM for the emitted subset, calibrated on 162 upstream designs. Six root causes found on the unchanged tree are recorded as known findings (port / entity names emitted verbatim, user names not made legal identifiers, predefined names not reserved, empty sensitivity list); violations are attributed to them only through the adversarial name that causes them, anything else is reported.",
+        technique="deterministic generation of adversarial designs compiled by the real compiler; strict reference elaboration of the emitted VHDL + seeded simulation with the sensitivity monitor",
+        ref="6/C06",
+    ),
 }
 
 NOT_APPLICABLE = {
